@@ -109,7 +109,7 @@ def draw(rng, i):
         k = rng.randint(1, 5)
         return {"kind": "numitems", "alg": "numitems", "k": k, "index": rng.randrange(k), "values": [rng.randint(0, 9) for _ in range(rng.randint(0, 6))]}
     alg = C.PACKERS[i % 5]
-    base = C.draw_pack_case(rng, alg=alg, nmax=rng.choice([3, 8, 12, 40]))
+    base = C.draw_pack_case(rng, alg=alg, nmax=rng.choice([3, 8, 12, 40, 150, 400]) if alg != "bc" else rng.choice([3, 8, 12]))
     vals = list(base["values"])
     Cs = base["C"]
     m = rng.choice([1, 1, 1, 2, 3])
